@@ -82,7 +82,8 @@ def resolveSchemaArg (accept : Val → Option Val) (s1 : VState) (schema : Optio
     match s1.schema with
     | some _ => .ok s1
     | none =>
-      if s1.cfg.allowUnknown.isMapping then .ok { s1 with schema := some (.dict []) }
+      -- rules for unknown fields, inline or by reference, make up for a missing schema (after the repair of F38)
+      if s1.cfg.allowUnknown.isMapping || s1.cfg.allowUnknown.isStr then .ok { s1 with schema := some (.dict []) }
       else .error (.py "SchemaError" "__init_processing")
 
 /-- last: `None` and non-mappings are rejected -/
